@@ -99,6 +99,18 @@ def streams(tier, rng, P, only=None, cases=None):
             for cmd in ["c", "l8", "v100", "y7,100;", "TR(2)", "[2 c]", "n60,4"]:
                 a = cmd + " e"; b = cmd + sep + "e"
                 cs.append(dict(req="compile2 %s %s" % (hx(a), hx(b)), src=a, src2=b, show="%r vs %r" % (a, b), ntok=3, kind="sep", key="s" + cmd + sep))
+            # the same with notes in Japanese notation, sharpened with a half-width '#': the sharp is part of the note for the preprocessor too
+            for cmd in ["ド#", "ファ#8", "ド", "ソ#4.", "c#"]:
+                for nxt in ["レミ", "ミ e", "e ファ"]:
+                    a = cmd + " " + nxt; b = cmd + sep + nxt
+                    cs.append(dict(req="compile2 %s %s" % (hx(a), hx(b)), src=a, src2=b, show="%r vs %r" % (a, b), ntok=3, kind="sep", key="k" + cmd + sep + nxt))
+        for j in range(300 if big else 60):
+            # kana lines with written sharps in several layouts against the MML transliteration
+            notes = [rng.choice([("ド", "c"), ("レ", "d"), ("ミ", "e"), ("ファ", "f"), ("ソ", "g"), ("ラ", "a"), ("シ", "b")]) for _ in range(rng.randrange(2, 7))]
+            shp = [rng.random() < 0.4 for _ in notes]
+            a = " ".join(n[1] + ("#" if s_ else "") for n, s_ in zip(notes, shp))
+            b = "".join(n[0] + ("#" if s_ else "") + rng.choice([" ", " ", "", "  ", "\t", " | ", ";"]) for n, s_ in zip(notes, shp))
+            cs.append(dict(req="compile2 %s %s" % (hx(a), hx(b)), src=a, src2=b, show="%r vs %r" % (a, b), ntok=len(notes), kind="sep", key="kana%d" % j))
         return cs
     def judge(c, impl, m):
         st, f = impl
